@@ -47,8 +47,11 @@ def rmtree_real(path):
 class Arena:
     def __init__(self, tag):
         base = os.environ.get("XSIM_BASE") or os.path.join(env.SHM, "xsim-%d" % os.getpid())
-        self.path = os.path.join(base, tag)
-        rmtree_real(self.path)
+        # three extra levels, so that a request escaping the root by a few ".." still
+        # lands inside the run's own scratch tree (which is removed afterwards)
+        self.top = os.path.join(base, tag)
+        rmtree_real(self.top)
+        self.path = os.path.join(self.top, "n1", "n2", "n3")
         os.makedirs(self.path)
         self.root = os.path.join(self.path, "root")
         self.tmp = os.path.join(self.path, "tmp")
@@ -65,7 +68,7 @@ class Arena:
 
     def destroy(self):
         tempfile.tempdir = self._old_tmp
-        rmtree_real(self.path)
+        rmtree_real(self.top)
 
 
 class World:
